@@ -93,6 +93,9 @@ def signature_of(failure, lf):
     if failure == 'duplicated' and lf['kind'] == 'cell':
         # a split table cell restarts from its beginning (listed for C10, also seen by C01/C03)
         return 'table-split:cell-content-once[restart-after-empty-fragment]'
+    if failure == 'non-consecutive' and 'table' in lf['ctx']:
+        # a cell of a split row whose next piece does not fit waits while its neighbours go on (listed finding)
+        return 'non-consecutive:stalled-table-cell'
     return None
 
 
